@@ -1,6 +1,8 @@
 import NetaddrVerif.Model.Proto
 import NetaddrVerif.Model.Network
 import NetaddrVerif.Model.NetworkSet
+import NetaddrVerif.Model.NetworkMask
+import NetaddrVerif.Driver.C01
 namespace NV.Driver.C02
 open NV NV.Proto
 
@@ -43,8 +45,54 @@ def runSetsT (n : Net) : List SetOp → List String
       | .error e => showSetErr e ++ "~" ++ showNet st.obj
     (s ++ "#" ++ toString st.log.length) :: runSetsT st.obj ops
 
+/-! ### every argument form of the netmask setter (Model/NetworkMask.lean)
+
+    setter tokens as above, plus `m:s:<hex of the text>` (a str) and `m:n:ver:val:plen` (an
+    IPNetwork object).  The error class is printed exactly (`!value`, `!addrFormat`, `!type`):
+    the theorems of Props/C02Audit2.lean name it. -/
+
+def parseMaskArg : List String → Option NetMask.MaskArg
+  | ["s", h] => (parseStr ("s:" ++ h)).map .str
+  | ["n", ver, v, p] => do pure (.net ⟨← ver.toNat?, ← v.toNat?, ← p.toNat?⟩)
+  | r => (parseSetArg r).map .plain
+
+def parseSetOpX (tok : String) : Option NetMask.SetOpX :=
+  match tok.splitOn ":" with
+  | "v" :: r => (parseSetArg r).map .value
+  | "p" :: r => (parseSetArg r).map .prefixlen
+  | "m" :: r => (parseMaskArg r).map .netmask
+  | _ => none
+
+def runSetsX (be : AddrParse.Backend) (n : Net) : List NetMask.SetOpX → List String
+  | [] => []
+  | op :: ops =>
+    let (n', e) := NetMask.stepSetX be n op
+    let s := match e with
+      | none => showNet n'
+      | some e => showErr e ++ "~" ++ showNet n'
+    s :: runSetsX be n' ops
+
+def runSetsXT (be : AddrParse.Backend) (n : Net) : List NetMask.SetOpX → List String
+  | [] => []
+  | op :: ops =>
+    let (r, st) := NetMask.setterTraceX be n op
+    let s := match r with
+      | .ok _ => showNet st.obj
+      | .error e => showErr e ++ "~" ++ showNet st.obj
+    (s ++ "#" ++ toString st.log.length) :: runSetsXT be st.obj ops
+
 def handle (op : String) (args : List String) : Option String :=
   match op, args with
+  | "net_sets_x", [be, ver, v, p, ops] => do
+    let be ← NV.Driver.C01.parseBe be
+    let n : Net := ⟨← ver.toNat?, ← v.toNat?, ← p.toNat?⟩
+    let ops ← (← parseList ops).mapM parseSetOpX
+    pure (";".intercalate (runSetsX be n ops))
+  | "net_sets_x_trace", [be, ver, v, p, ops] => do
+    let be ← NV.Driver.C01.parseBe be
+    let n : Net := ⟨← ver.toNat?, ← v.toNat?, ← p.toNat?⟩
+    let ops ← (← parseList ops).mapM parseSetOpX
+    pure (";".intercalate (runSetsXT be n ops))
   | "net_attrs", [ver, v, p] => do
     let ver ← ver.toNat?; let v ← v.toNat?; let p ← p.toNat?
     let w := width ver
